@@ -794,6 +794,19 @@ func TestC01(t *testing.T) {
 				if !ok {
 					return
 				}
+				// some of the named providers shut their provider record down before anybody has signed: that does not lower
+				// the number of signatures the form needs
+				if rapid.IntRange(0, 2).Draw(rt, "judgesLeave") == 0 {
+					for _, at := range form.Attestations {
+						if at.Provider != prover.Bech && rapid.IntRange(0, 3).Draw(rt, "leaves") > 0 {
+							r := w.f.Exec(newMsgShutdownProvider(at.Provider))
+							w.logf("named provider %s shuts down -> %s", short(at.Provider), r)
+							if r.OK() {
+								w.classes["named-provider-shut-down-before-signing"]++
+							}
+						}
+					}
+				}
 				for i, at := range form.Attestations {
 					for _, a := range w.accounts {
 						if a.Bech != at.Provider || !rapid.Bool().Draw(rt, "signs") {
